@@ -18,7 +18,8 @@ EXPLANATION = (
     "checked (age_ok forced True, protection re-added, nothing deleted); all abort sites and the marker load dominate "
     "the first delete-capable call; the escaping-path test dominates the membership test and raises."
     " Also: (R5) no skip path in the reachability loops; (R6) no fail-open version resolution under the collector's metadata read."
-    ' (R7) who-may-delete census (C09.R3); (R8) no function the collector reaches (metadata resolution, manifest readers, backends) converts a failure into a default answer.')
+    ' (R7) who-may-delete census (C09.R3); (R8) no function the collector reaches (metadata resolution, manifest readers, backends) converts a failure into a default answer.'
+    ' (R9) the manifest parsers drop no entry (C14.R7).')
 NOT_DECIDED = "run-time fault enumeration; corruption classes of files that still parse"
 
 GC = "garbage_collector.GarbageCollector"
